@@ -623,16 +623,17 @@ _lin_m = TConc(True)
 _lin_m.default = VBool(True)
 REG.add(Contract(CM.MM, "moma", "C09", [("model", _model_t()), ("solution", _sol), ("linear", _lin_m)],
                  _driver_cases("moma", CM._already, [("linear/", {"linear": TConc(True)}), ("quadratic/", {"linear": TConc(False)})]),
-                 pre=lambda E: _q_pre(E) if _is_false(E["linear"]) else CR._pre(E), modifies=_driver_mod("moma"), key="moma", result=_new_result,
-                 note="preconditions of add_moma; the rollback of the MOMA problem at context exit is C03 / C13 (not replayed here)"))
+                 pre=lambda E: REG.get(_builder_key("moma", E)).pre(E), modifies=_driver_mod("moma"), key="moma", result=_new_result,
+                 note="preconditions of add_moma (with solution None: no pFBA objective installed; linear False: QP-capable solver "
+                      "interface); the rollback of the MOMA problem at context exit is C03 / C13 (not replayed here)"))
 _sol2 = N.TNp()
 _sol2.default = NONE
 _lin_r, _dl_r, _ep_r = TBool(), TReal(), TReal()
 _lin_r.default, _dl_r.default, _ep_r.default = VBool(False), VReal(0, z3.RealVal("0.03")), VReal(0, z3.RealVal("0.001"))
 REG.add(Contract(CR.MR, "room", "C09", [("model", _model_t()), ("solution", _sol2), ("linear", _lin_r), ("delta", _dl_r), ("epsilon", _ep_r)],
                  _driver_cases("room", CR._already, [("", {})]),
-                 pre=CR._pre, modifies=_driver_mod("room"), key="room", result=_new_result,
-                 note="preconditions of add_room; the rollback of the ROOM problem at context exit is C03 / C13 (not replayed here)"))
+                 pre=lambda E: REG.get("add_room").pre(E), modifies=_driver_mod("room"), key="room", result=_new_result,
+                 note="preconditions of add_room (with solution None: no pFBA objective installed); the rollback of the ROOM problem at context exit is C03 / C13 (not replayed here)"))
 
 
 # ================================================================ add_moma, QUADRATIC formulation (linear=False)   [key add_moma@quadratic]
@@ -709,8 +710,14 @@ def q_call_abstract(eng, st, f, pos, kw):
             snap = (rec["len"], rec["elem"], rec["ekind"])
         total = N.VNp(fresh("np:sum_of_squares", N.NP))
         return [("ok", _log(st, _tr(st), "symbolics.add", snap, total), total)]
-    if f.a == "pfba":
-        untouched = not any(ev[0] != "pfba" for ev in _tr(st))
+    return None
+
+
+def b_call_abstract(eng, st, f, pos, kw):
+    """pfba(model) inside add_room / add_moma (both formulations): by the PROVED contract `pfba` (+ the trusted rollback), recorded in
+    the builders' trace in the format c09_room reads: ("pfba", positional, keyword names, result, made on the untouched model)"""
+    if getattr(getattr(eng, "cur_contract", None), "key", None) in CR.MINE and f.a == "pfba":
+        untouched = st.ghost.get("objective_installed") is None and not any(ev[0] != "pfba" for ev in _tr(st))
         res = []
         for k, s, v in apply_restoring(eng, st, pos, kw):
             if k == "ok":
@@ -738,7 +745,8 @@ def N_direction(t):
     return objective_direction(t)
 
 
-Q_HOOKS = {"global": q_global, "getattr": q_getattr, "call_abstract": q_call_abstract, "setattr": q_setattr}
+Q_HOOKS = chain_hooks({"call_abstract": b_call_abstract},
+                      {"global": q_global, "getattr": q_getattr, "call_abstract": q_call_abstract, "setattr": q_setattr})
 
 
 def q_dist(E, r):
@@ -892,10 +900,13 @@ def _q_nothing_done(E):
 
 def _q_reference_failed(E):
     """pfba raised: nothing was built, added or installed (the objective is the entry objective), the stack is as at entry"""
+    if E.role != "goal":
+        return _stack_as_at_entry(E, E.s1)
     m = E["model"]
     o0, o1 = E.s0.objs[C4.objective_of(E.s0, m).oid], E.s1.objs[C4.objective_of(E.s1, m).oid]
     same = all(o0[a] is o1[a] for a in ("attr:name", "attr:direction", "attr:expression"))
-    return z3.And(z3.BoolVal(len(_tr(E.s1)) == 0 and same), _stack_as_at_entry(E, E.s1))
+    untouched = E.s1.ghost.get("objective_installed") is None and E.s1.ghost.get("installed_objective") is None
+    return z3.And(z3.BoolVal(len(_tr(E.s1)) == 0 and same and untouched), _stack_as_at_entry(E, E.s1))
 
 
 def _q_cases():
@@ -915,5 +926,89 @@ REG.add(Contract(CM.MM, "add_moma", "C09", [("model", _model_t()), ("solution", 
                  _q_cases(), pre=_q_pre, modifies=_q_mod, loops={0: LoopSpec(_q_loop_inv, CM._loop_mod)}, key=QKEY,
                  note="linear=False; QP-capable solver interface (no solver switch); with solution None: no pFBA objective installed"))
 REG.get(QKEY).call_cases = _q_call_cases()
+
+
+# ================================================================ add_room / add_moma (linear): the reference pfba(model) by its PROVED contract
+# c09_room / c09_moma were proved against an ASSUMED pfba ("returns a solution, leaves the model as found").  Importing this module
+# upgrades the two contracts in place: the model parameter carries what pfba needs (context stack, solver status / objective value),
+# the call is discharged by the proved contract `pfba` (hook b_call_abstract, chained BEFORE c09_room's), whose failure is a NEW exit of
+# the `reference_from_pfba` cases: OptimizationError with nothing built, added or installed and the stack as at entry.  Added
+# precondition for solution None: no pFBA objective installed (pfba refuses such a model with ValueError).  What remains trusted is
+# only the rollback of pfba's own context (C03 / C13).
+def _upgrade(key):
+    con = REG.get(key)
+    con.params = [("model", _model_t())] + list(con.params[1:])
+    old_pre, old_mod = con.pre, con.modifies
+    con.pre = lambda E: z3.And(old_pre(E), z3.Not(CP._already(E))) if isinstance(E["solution"], VNone) else old_pre(E)
+
+    def mod(E):
+        out = old_mod(E)
+        if isinstance(E["solution"], VNone):
+            m = E["model"]
+            out = out + _ctx_mod(E) + C4._slim_mod(Env({"self": m}, E.s0, eng=E.eng)) + \
+                [("attr", C4.objective_of(E.s0, m), "value", lambda st: C4._fresh_real(st))]
+        return out
+    con.modifies = mod
+    for c in list(con.cases) + list(con.call_cases or []):
+        if c.raises is None and c.name.endswith("reference_from_pfba"):
+            c.may_raise = "OptimizationError"
+            c.ensures_on_raise = _q_reference_failed
+            c.ensures = (lambda old: lambda E: z3.And(old(E), _stack_as_at_entry(E, E.s1)))(c.ensures)
+
+
+for _k in ("add_room", "add_moma"):
+    _upgrade(_k)
 VISIBLE_CALL[QKEY] = _q_post_call
 HOOKS_Q = chain_hooks(Q_HOOKS, CR.OWN_HOOKS, N.HOOKS)
+
+
+# ================================================================ lemmas: the call-site forms follow from the proved post-conditions
+def lemmas():
+    """For add_room, add_moma and add_moma@quadratic, each way of giving the reference: on a synthetic exit state (everything the contract
+    may modify havocked, the trace shaped as the PROVED post-condition demands, the ghost ("added", key) holding the very list the trace
+    snapshot holds) the proved post-condition (the case's own `ensures`, role goal) implies the call-site form (the call case's
+    `ensures`, role assume).  Vacuity guard: the proved post-condition is not literally False on that state."""
+    from pyvc.engine import Engine, Obl
+    from pyvc.state import State
+    from pyvc.loops import havoc_locations
+    from pyvc.verify import case_params
+    out = []
+    A = z3.ArraySort(z3.IntSort(), N.NP)
+    for key in ("add_room", "add_moma", QKEY):
+        con = REG.get(key)
+        for case in con.cases:
+            if case.raises is not None:
+                continue
+            call = [c for c in con.call_cases if c.raises is None and c.name.endswith(case.name.split("/")[-1])][0]
+            eng = Engine(REG)
+            eng.cur_contract = con
+            st, a = State(), {}
+            for name, t in case_params(con, case):
+                st, v = t.make(st, "g_" + name)
+                a[name] = v
+            s0 = st.assume(*eng.kind_axioms(st))
+            E0 = Env(a, s0, eng=eng)
+            s0 = s0.assume(con.pre(E0), case.requires(E0))
+            s1 = havoc_locations(eng, s0, con.modifies(Env(a, s0, eng=eng)))
+            given = not isinstance(a["solution"], VNone)
+            S = a["solution"].t if given else fresh("np:g_reference", N.NP)
+            ln, elem = fresh("g_len", z3.IntSort()), fresh("g_elem", A)
+            tr = () if given else (("pfba", (a["model"],), (), N.VNp(S), True),)
+            add_ev = ("add_cons_vars", a["model"], (ln, elem, "np"), (), 1)
+            if key == QKEY:
+                sn, se, total = fresh("g_sqlen", z3.IntSort()), fresh("g_sqelem", A), fresh("np:g_total", N.NP)
+                t0, t3 = fresh("np:g_first_objective", N.NP), fresh("np:g_last_objective", N.NP)
+                tr += (("set_objective", t0), add_ev, ("symbolics.add", (sn, se, "np"), N.VNp(total)), ("set_objective", t3))
+                s1 = s1.setghost(("added", key), (ln, elem, S, sn, se, total)).setghost("installed_objective", fresh("np:g_installed", N.NP))
+            else:
+                tr += (add_ev,)
+                s1 = s1.setghost(("added", key), (ln, elem, S)).setghost("objective_installed", fresh("g_installed", z3.BoolSort()))
+            s1 = s1.setghost("trace", tr)
+            proved = case.ensures(Env(a, s0, s1, res=NONE, eng=eng, role="goal"))
+            seen = call.ensures(Env(a, s0, s1, res=NONE, eng=eng, role="assume"))
+            nm = f"C09/lemma/call-form-follows/{key}/{case.name}"
+            if z3.is_false(proved) or z3.is_false(z3.simplify(proved)):
+                out.append(Obl(nm + "/proved-post-is-stated", [], z3.BoolVal(False), "lemma"))
+                continue
+            out.append(Obl(nm, list(s1.pc) + [proved], seen, "lemma"))
+    return out
